@@ -292,6 +292,8 @@ def run_file(datadir, fname, cfg):
             if not fields:
                 continue
             proj = [fields[0], fields[-1], fields[h % len(fields)]] if steps in cfg["project_steps"] else []
+            if steps in cfg.get("all_fields_steps", []):
+                proj = list(fields)
             for fld in dict.fromkeys(proj):
                 case("dask-project", k, steps, fld)
                 try:
@@ -308,14 +310,14 @@ def run_file(datadir, fname, cfg):
 
     # (2) several branches in one lazy collection, projected to one branch each before compute()
     plain = [k for k in lazy_ok if k not in symm]
-    if plain:
+    for gsteps in (cfg.get("group_steps_list", [cfg["group_steps"]]) if plain else []):
         paths = {tree[k].object_path for k in plain}
-        case("dask-group", "plain", len(plain))
+        case("dask-group", "plain", len(plain), gsteps)
         try:
-            dg = uproot.dask({fn: "Event"}, filter_branch=lambda b: b.object_path in paths, steps_per_file=cfg["group_steps"])
+            dg = uproot.dask({fn: "Event"}, filter_branch=lambda b: b.object_path in paths, steps_per_file=gsteps)
             for k in plain:
                 br = tree[k]
-                case("dask-group-project", k)
+                case("dask-group-project", k, gsteps)
                 try:
                     ann = tstr(dg[br.name])
                     c = dg[br.name].compute()
